@@ -201,7 +201,27 @@ func RunCurrency(w *tr.Writer, st *CurStats, r *rand.Rand, nrand int) {
 			})
 		}
 	}
-	for _, a := range vals {
+	// format-then-parse candidates: amounts of at most 15 significant digits over the whole range, in particular above
+	// 2^53 units where the amount itself is not a float (mantissa of 1..15 digits times a power of ten, and neighbours
+	// of round amounts)
+	rt := []uint64{100000000000001000, 900719925474099200, 9007199254740993000, 1234567890123450000, 9223372036854770000,
+		9223372036854775000, 999999999999999000, 1000000000000001, 10000000000000010, 100000000000000100}
+	nrt := 400
+	if full {
+		nrt = 60000
+	}
+	for i := 0; i < nrt; i++ {
+		digits := 1 + r.Intn(15)
+		m := uint64(r.Int63n(int64(math.Pow10(digits))))
+		if r.Intn(3) == 0 {
+			m = uint64(math.Pow10(digits-1)) + uint64(r.Intn(3)) // 10..0, 10..1, 10..2
+		}
+		for k := r.Intn(5); k > 0 && m <= math.MaxInt64/10; k-- {
+			m *= 10
+		}
+		rt = append(rt, m)
+	}
+	for _, a := range append(append([]uint64(nil), vals...), rt...) {
 		a := a
 		c.emit("Int64", map[string]any{"a": ulimbs(a)}, func() (string, map[string]any) {
 			v, err := currency.Coin(a).Int64()
